@@ -989,6 +989,8 @@ def _parse(
                 block = _Statement(suffix, line)
             elif operator == "autoescape":
                 fn: str | None = suffix.strip()
+                if not fn:
+                    reader.raise_parse_error("autoescape missing function name")
                 if fn == "None":
                     fn = None
                 template.autoescape = fn
